@@ -724,6 +724,8 @@ class Emitter:
             return "Bool"
         if t == "u":
             return "Unit"
+        if t == "z":
+            return "Int"
         if t == "r":
             return "Status"
         if t == "res":
@@ -885,6 +887,10 @@ class Emitter:
                 lop = {"<": "<", ">": ">", "<=": "≤", ">=": "≥"}[op]
                 return f"(decide ({a} {lop} {b}))", "b"
             if op in ("==", "!="):
+                if ta == "z" and tb == "n":
+                    b = f"(({b} : Nat) : Int)"
+                if tb == "z" and ta == "n":
+                    a = f"(({a} : Nat) : Int)"
                 if ta == "f":
                     s = f"(decide (feq {a} {b}))"
                 else:
@@ -926,6 +932,10 @@ class Emitter:
                 return f"(fclamp {rs} {a} {b})", "f"
             if rt == "f" and name == "is_finite":
                 return f"(Transc.isFinite {rs})", "b"
+            if rt == "z" and name == "abs" and not args:
+                return f"(Int.natAbs {rs})", "n"
+            if rt and rt[0] == "o" and name in ("is_some", "is_none") and not args:
+                return f"(Option.{'isSome' if name == 'is_some' else 'isNone'} {rs})", "b"
             if rt == "n" and name == "saturating_sub":
                 a, _ = self.expr(args[0], env)
                 return f"({rs} - {a})", "n"
@@ -950,6 +960,9 @@ class Emitter:
                     ln, ret, sk = self.fnsigs[key]
                     argss = [self.expr(a, env)[0] for a in e[2]]
                     return "(" + " ".join([ln] + argss) + ")", ret
+                ctor = getattr(self, "iface_ctors", {}).get((p[-2] if len(p) > 1 else None, p[-1]))
+                if ctor is not None:
+                    return ctor[0], ("i", ctor[1])
                 if p[-1] == "Ok" and len(e[2]) == 1 and e[2][0] == ("tuple", []):
                     return "Status.ok", "r"
                 if p[-1] == "Err" and len(e[2]) == 1:
@@ -1131,9 +1144,34 @@ class Emitter:
                         if e[2] is None:
                             self.bad(st[2], "assert! with unparsable condition")
                         c, _ = self.expr(e[2][0], env)
+                        if getattr(self, "asserts_option", False):
+                            lines.append(f"{pad}if !({c}) then return none   -- assert! failed: the call panics")
+                            continue
                         lines.append(f"{pad}-- assert!({c})  [modelled as a precondition; see theorem hypotheses]")
                         continue
                     self.bad(st[2], f"macro {e[1]}!")
+                if e[0] == "mcall" and e[1][0] == "path" and len(e[1][1]) == 1 and e[1][1][0] in getattr(self, "dropped_params", ()):
+                    # a call on an object that is not modelled (e.g. `math.copy_into(src, &mut self.buf)`): allowed only if every field of a
+                    # modelled struct it could write to (passed by reference) is itself not modelled
+                    def target_fields(x):
+                        if isinstance(x, tuple):
+                            if x and x[0] == "field" and x[1][0] == "path" and len(x[1][1]) == 1:
+                                yield (x[1][1][0], x[2])
+                            for y in x:
+                                if isinstance(y, tuple):
+                                    yield from target_fields(y)
+                                elif isinstance(y, list):
+                                    for z in y:
+                                        if isinstance(z, tuple):
+                                            yield from target_fields(z)
+                    for a in e[3]:
+                        if a and a[0] == "ref":
+                            for (base, fld) in target_fields(a):
+                                bt = env.get(base)
+                                if bt and bt[0] == "s" and fld not in getattr(self, "dropped", {}).get(bt[1], ()):
+                                    self.bad(st[2], f"call on the unmodelled object {e[1][1][0]} takes a reference to the modelled field {base}.{fld}")
+                    lines.append(f"{pad}-- {e[1][1][0]}.{e[2]}(..)  [object not modelled; touches only fields that are not modelled]")
+                    continue
                 if e[0] == "mcall":
                     # &mut method call on a local/self struct:  x.m(args);
                     rs, rt = self.expr(e[1], env)
@@ -1256,6 +1294,8 @@ class Emitter:
         raise Untranslatable(f"{self.fname}: pattern {pat}")
 
     def pack(self, val, ret_self):
+        if getattr(self, "asserts_option", False) and not ret_self:
+            return f"some ({val})" if val is not None else "some ()"
         if ret_self:
             if val is None:
                 return "self"
@@ -1271,6 +1311,7 @@ class Emitter:
             env["self"] = ("s", type_name)
             params.append(f"(self : {type_name} α)")
         self.dropped_params = {pn for (pn, _) in fn["params"] if pn in overrides and overrides[pn] is None}
+        self.asserts_option = overrides.get("__asserts__") == "option"
         self.tmp = 0
         if "__oracle__" in overrides:
             params.append(f"(orc : {overrides['__oracle__']})")
@@ -1295,6 +1336,8 @@ class Emitter:
             rty = f"{type_name} α" if ret is None else f"{self.lean_ty(ret)} × {type_name} α"
         else:
             rty = self.lean_ty(ret) if ret is not None else "Unit"
+            if self.asserts_option:
+                rty = f"Option {rty}"
         body = []
         if ret_self:
             body.append("  let mut self := self")
@@ -1329,6 +1372,9 @@ def gen_module(repo, spec, out_path, header):
     for item in spec:
         if item[0] == "iface":
             em.iface = item[1]
+            continue
+        if item[0] == "iface_ctors":
+            em.iface_ctors = item[1]
             continue
         if item[0] == "import":
             out[0] = out[0] + "\nimport " + item[1]
@@ -1437,8 +1483,18 @@ MODULES["Adapt"] = [
     }),
     ("struct", "src/adapt_strategy.rs", "EuclideanAdaptOptions", {"drop": ["step_size_settings", "mass_matrix_options"]}),
     ("struct", "src/adapt_strategy.rs", "GlobalStrategy", {"iface": {"step_size": "SSI", "mass_matrix_adapt": "MMI"}}),
+    ("iface_ctors", {("StepSizeStrategy", "new"): ("SSI.new", "SSI"), ("A", "new"): ("MMI.new", "MMI")}),
+    ("fn", "src/adapt_strategy.rs", "GlobalStrategy", "new", "GlobalStrategy.new", "AdaptStrategy",
+     {"__asserts__": "option", "math": None, "chain": None, "options": ("s", "EuclideanAdaptOptions")}),
     ("fn", "src/adapt_strategy.rs", "GlobalStrategy", "adapt", "GlobalStrategy.adapt", "AdaptStrategy",
      {"__oracle__": "AdaptOracle", "math": None, "options": None, "hamiltonian": None, "collector": None, "state": None, "rng": None}),
+]
+
+MODULES["Collector"] = [
+    # C09: which draws the mass-matrix estimators use (`DrawGradCollector::register_draw`; the two vector buffers are not modelled)
+    ("struct", "src/transform/adapt/diagonal.rs", "DrawGradCollector", {"drop": ["draw", "grad"]}),
+    ("fn", "src/transform/adapt/diagonal.rs", "DrawGradCollector", "register_draw", "DrawGradCollector.register_draw", "Collector",
+     {"math": None, "state": ("ext", {"index_in_trajectory": "z"}), "info": ("ext", {"divergence_info": ("o", "u")})}),
 ]
 
 MODULES["Progress"] = [
